@@ -36,7 +36,11 @@ def main():
             r = subprocess.run([os.path.join(ROOT, "check"), prop], cwd=ROOT, env=env, stdout=subprocess.PIPE,
                                stderr=subprocess.DEVNULL, text=True)
             viol = [l for l in r.stdout.splitlines() if l.startswith("VIOLATION")]
-            rows.append((sid, prop, "DETECTED" if viol else "MISSED (rc=%d)" % r.returncode, viol[0] if viol else ""))
+            concrete = [l for l in viol if not l.rstrip().endswith("no-failing-input-found")]
+            shown = (concrete or viol or [""])[0]
+            if viol:
+                shown += "   [%d with a failing input, %d without]" % (len(concrete), len(viol) - len(concrete))
+            rows.append((sid, prop, "DETECTED" if viol else "MISSED (rc=%d)" % r.returncode, shown))
     shutil.rmtree(scratch, ignore_errors=True) if scratch else None
     # point the harness back at /repo
     subprocess.run([os.path.join(ROOT, "check"), "C06"], cwd=ROOT, stdout=subprocess.DEVNULL, stderr=subprocess.DEVNULL)
